@@ -94,14 +94,18 @@ def Sync (W : List UInt8) (D n : Nat) (rb : Fifo) (nxt : UInt32) (rl : List RSeg
     ∀ q, r.seq.toNat ≤ q → q < r.seq.toNat + r.len.toNat → nxt.toNat ≤ q →
       q - (D + n) < rb.buf.size ∧ byteAt rb (q - (D + n)) = W.getD (q - D) 0
 
-/-- the receive-side stream invariant, relative to a reference state `st0` (the socket's state is `st0` or CLOSED; the
-    send-side functions only ever move it to CLOSED). -/
-structure RInvS (W : List UInt8) (D n : Nat) (st0 : TcpState) (s : Sock) : Prop where
+/-- state-independent part of the receive-side stream invariant -/
+structure RCore (W : List UInt8) (D n : Nat) (s : Sock) : Prop where
   fok : FOk s.rbuf
   pre : n + s.rbuf.data ≤ W.length
   com : ∀ i, i < s.rbuf.data → byteAt s.rbuf i = W.getD (n + i) 0
   sync : (s.support_fin_ack = false ∧ s.shutdown ≠ .none) ∨ Sync W D n s.rbuf s.rcv_nxt s.rlist
   finp : s.rcv_fin = 0 ∨ s.rcv_fin.toNat = D + W.length
+
+/-- the receive-side stream invariant, relative to a reference state `st0` (the socket's state is `st0` or CLOSED; the
+    send-side functions only ever move it to CLOSED). -/
+structure RInvS (W : List UInt8) (D n : Nat) (st0 : TcpState) (s : Sock) : Prop where
+  core : RCore W D n s
   ph : st0 ≠ .listen ∧ st0 ≠ .synSent
   fin4 : Fin4 st0 → s.support_fin_ack = true ∧ s.rcv_nxt.toNat = D + W.length + 1
   stk : s.state = st0 ∨ s.state = .closed
@@ -116,43 +120,49 @@ theorem RInv.toS {W D n s} (h : RInv W D n s) : RInvS W D n s.state s := h
 theorem RInvS.toInv {W D n st0 s} (h : RInvS W D n st0 s) : RInv W D n s := by
   rcases h.stk with e | e
   · unfold RInv; rw [e]; exact h
-  · refine ⟨h.fok, h.pre, h.com, h.sync, h.finp, ?_, ?_, Or.inl rfl⟩
+  · refine ⟨h.core, ?_, ?_, Or.inl rfl⟩
     · rw [e]; exact ⟨by decide, by decide⟩
     · rw [e]; intro hf; exact absurd hf (by unfold Fin4; simp)
 
-theorem sync_forceful {W D n} {s : Sock}
-    (h : (s.support_fin_ack = false ∧ s.shutdown ≠ .none) ∨ Sync W D n s.rbuf s.rcv_nxt s.rlist) :
-    (s.support_fin_ack = false ∧ Shutdown.forceful ≠ .none) ∨ Sync W D n s.rbuf s.rcv_nxt s.rlist := by
+theorem sync_forceful {fa : Bool} {sd : Shutdown} {P : Prop} (h : (fa = false ∧ sd ≠ .none) ∨ P) :
+    (fa = false ∧ Shutdown.forceful ≠ .none) ∨ P := by
   rcases h with h | h
   · exact Or.inl ⟨h.1, by decide⟩
   · exact Or.inr h
 
 open Lean Elab Tactic Meta in
-/-- adds the components of every hypothesis `h : RInvS ..` to the context -/
+/-- adds the components of every hypothesis `h : RInvS ..` / `h : RCore ..` to the context -/
 elab "rinv_unpack" : tactic => withMainContext do
   let lctx ← getLCtx
   let mut hs : Array Expr := #[]
+  let mut cs : Array Expr := #[]
   for d in lctx do
     if d.isImplementationDetail then continue
     let ty ← instantiateMVars d.type
     if ty.isAppOfArity ``RInvS 5 then hs := hs.push d.toExpr
+    if ty.isAppOfArity ``RCore 4 then cs := cs.push d.toExpr
+  let add (p : Expr) : TacticM Unit := do
+    let t ← inferType p
+    liftMetaTactic fun g => do
+      let g ← g.assert `hrinv t p
+      let (_, g) ← g.intro1P
+      pure [g]
   for h in hs do
-    for f in [``RInvS.fok, ``RInvS.pre, ``RInvS.com, ``RInvS.sync, ``RInvS.finp, ``RInvS.ph, ``RInvS.fin4,
-        ``RInvS.stk] do
-      let p ← mkAppM f #[h]
-      let t ← inferType p
-      liftMetaTactic fun g => do
-        let g ← g.assert `hrinv t p
-        let (_, g) ← g.intro1P
-        pure [g]
+    for f in [``RInvS.ph, ``RInvS.fin4, ``RInvS.stk] do
+      add (← mkAppM f #[h])
+    cs := cs.push (← mkAppM ``RInvS.core #[h])
+  for c in cs do
+    for f in [``RCore.fok, ``RCore.pre, ``RCore.com, ``RCore.sync, ``RCore.finp] do
+      add (← mkAppM f #[c])
 
 macro "rinv_atom" : tactic => `(tactic| first
   | assumption
   | exact sync_forceful ‹_›
-  | exact Or.inr rfl)
+  | exact Or.inr rfl
+  | (constructor <;> first | assumption | exact sync_forceful ‹_›))
 
-/-- closes verification conditions about sockets that differ from a socket satisfying `RInvS` in fields the invariant
-    does not read (by definitional unfolding) -/
+/-- closes verification conditions about sockets that differ from a socket satisfying `RInvS` / `RCore` in fields the
+    invariant does not read (by definitional unfolding) -/
 macro "rinv" : tactic => `(tactic| (
   first
   | assumption
